@@ -103,6 +103,29 @@ theorem runMStmts_againL {C : Codecs} {T F : String → Prop} (hF : LawfulFmt C 
       obtain ⟨g1, g2⟩ := layout_step C s'.env b (.opt b w e f none) rfl m' t _ t' (if x = 0 then [] else intBytes w e x) rfl rfl hP hD
         (by simp [slotBytes, hx])
       exact ⟨t', by rw [runMStmts, ht1]; exact hr, hag', g1, g2, by rw [hH]; cases b <;> rfl⟩
+    | ifNonZeroArr f b w e =>
+      simp only [MStmt.slotsL, List.nil_append, List.cons_append] at hm; subst hm
+      have hre' : reencodableM r = true := by simpa [reencodableM] using hre
+      have hFt' : ∀ ty ∈ fmtTypesM r, F ty := by simpa [fmtTypesM] using hFt
+      have hlen' : ∀ g ∈ lenFieldsM r, g ∈ fs := by simpa [lenFieldsM] using hlen
+      obtain ⟨xs, hx, _⟩ := hfit (.optInts b w e f 0 none) (List.mem_cons_self ..)
+      have htx : t.env.get f = some (.ns xs) := by rw [hag f (hmem (.optInts b w e f 0 none) (List.mem_cons_self ..)), hx]
+      have ht1 : runMStmt C andx t (.ifNonZeroArr f [.forInt b w e f]) =
+          .ok (t.app b (if xs.any (· != 0) then xs.flatMap (intBytes w e) else [])) := by
+        rw [runMStmt]
+        simp only [htx]
+        by_cases hany : xs.any (· != 0) = true
+        · simp [hany, runMStmts, runMStmt, htx]
+        · simp only [hany, Bool.false_eq_true, ↓reduceIte]
+          cases b <;> simp [MState.app]
+      obtain ⟨t', hr, hag', hP, hD, hH⟩ := ih m' s1 s' (t.app b (if xs.any (· != 0) then xs.flatMap (intBytes w e) else [])) fs
+        hl' hst.2 hre' hFt' hlen' hrun
+        (fun sl h => hfit sl (List.mem_cons_of_mem _ h)) (fun sl h => hmem sl (List.mem_cons_of_mem _ h))
+        (by cases b <;> exact hag)
+      obtain ⟨g1, g2⟩ := layout_step C s'.env b (.optInts b w e f 0 none) rfl m' t _ t'
+        (if xs.any (· != 0) then xs.flatMap (intBytes w e) else []) rfl rfl hP hD
+        (by simp [slotBytes, hx])
+      exact ⟨t', by rw [runMStmts, ht1]; exact hr, hag', g1, g2, by rw [hH]; cases b <;> rfl⟩
     | frag hfrag =>
     cases hfrag <;> simp only [MStmt.slotsL, List.nil_append, List.cons_append] at hm <;> subst hm
     case int b w e f =>
@@ -277,6 +300,7 @@ theorem layoutML_nil_reencodable : ∀ (stmts : List MStmt), layoutML stmts = so
     | forInt b w e f => simp [MStmt.slotsL] at hm
     | forSub b f t => simp [MStmt.slotsL] at hm
     | ifNonZero f b w e => simp [MStmt.slotsL] at hm
+    | ifNonZeroArr f b w e => simp [MStmt.slotsL] at hm
     | frag hfrag =>
     cases hfrag <;> simp only [MStmt.slotsL, List.nil_append, List.cons_append] at hm <;> try cases hm
     · -- setFmt
